@@ -1,5 +1,6 @@
 -- driver: barrier Um.Drv.Barrier
 import UmModel.Barrier
+import UmModel.BarrierMap
 import UmDriver.Common
 /-!
 Replays a schedule of the C11 harness on the model.
@@ -8,6 +9,12 @@ Replays a schedule of the C11 harness on the model.
   Output: `ok at=<thread>@<point>,… done=<d> blk=<b> term=<t>`.
 * `s <i>` / `c <j>`: thread takes one step.  Output: `<obs> @<next point> done=… blk=… term=…`,
   or `stuck` when the thread does not exist / has finished.
+  `init <senders> <ctrls> r`: same model state; the harness obtains sender and queue for an address
+  that was used and completely released before (`BlockingMap` re-creation path).
+* map family (`UmModel/BarrierMap.lean`), one `BlockingMap`, addresses and holders are numbers:
+  `minit` → `ok`; `msender <a>` | `mctrl <a>` | `mgetq <a>` → `h<id> q<queue> new=<0|1>`;
+  `mdrop <h>` → `dropped` | `noop`; `mdropall <a>` → `dropped <n>`;
+  `mprobe <a>` → `probe none` | `probe ctrl=h<c> h<s>:queued|handed,…` (`-` = no live sender).
 -/
 namespace Um.Drv.Barrier
 open Um.Barrier
@@ -58,23 +65,64 @@ def doStep (st : Option State) (t : Tid) : Option State × String :=
     | none => (some s, "stuck")
     | some (s', o) => (some s', s!"{o.render} @{pointOf s' t} {globals s'}")
 
-def step (st : Option State) (toks : List String) : Option State × String :=
+structure DS where
+  sched : Option State := none
+  map : Option Map.MState := none
+
+def acquire (ds : DS) (k : Map.Kind) (a : Nat) : DS × String :=
+  match ds.map with
+  | none => (ds, "stuck")
+  | some m =>
+    let r := Map.getOrCreate m a
+    let m' := Map.step m (.acquire k a)
+    ({ ds with map := some m' }, s!"h{m.holders.length} q{r.2.1} new={if r.2.2 then 1 else 0}")
+
+def step (ds : DS) (toks : List String) : DS × String :=
   match toks with
-  | ["init", ss, cs] =>
-    match parseList parseSender ss, parseList parseProg cs with
-    | some ss, some cs =>
-      let s := init ss cs
-      (some s, s!"ok at={positions s} {globals s}")
-    | _, _ => (st, "bad-op")
+  | "init" :: ss :: cs :: rest =>
+    if rest = [] ∨ rest = ["r"] then
+      match parseList parseSender ss, parseList parseProg cs with
+      | some ss, some cs =>
+        let s := init ss cs
+        ({ ds with sched := some s }, s!"ok at={positions s} {globals s}")
+      | _, _ => (ds, "bad-op")
+    else (ds, "bad-op")
   | ["s", i] =>
     match i.toNat? with
-    | some i => doStep st (.s i)
-    | none => (st, "bad-op")
+    | some i => let r := doStep ds.sched (.s i); ({ ds with sched := r.1 }, r.2)
+    | none => (ds, "bad-op")
   | ["c", j] =>
     match j.toNat? with
-    | some j => doStep st (.c j)
-    | none => (st, "bad-op")
-  | _ => (st, "bad-op")
+    | some j => let r := doStep ds.sched (.c j); ({ ds with sched := r.1 }, r.2)
+    | none => (ds, "bad-op")
+  | ["minit"] => ({ ds with map := some Map.init }, "ok")
+  | ["msender", a] => match a.toNat? with | some a => acquire ds .sender a | none => (ds, "bad-op")
+  | ["mctrl", a] => match a.toNat? with | some a => acquire ds .ctrl a | none => (ds, "bad-op")
+  | ["mgetq", a] => match a.toNat? with | some a => acquire ds .ctrl a | none => (ds, "bad-op")
+  | ["mdrop", h] =>
+    match h.toNat?, ds.map with
+    | some h, some m =>
+      match m.holders[h]? with
+      | some x =>
+        if x.live then ({ ds with map := some (Map.step m (.drop h)) }, "dropped") else (ds, "noop")
+      | none => (ds, "noop")
+    | _, _ => (ds, "bad-op")
+  | ["mdropall", a] =>
+    match a.toNat?, ds.map with
+    | some a, some m =>
+      let n := m.holders.countP (fun x => x.live && x.addr == a)
+      ({ ds with map := some (Map.step m (.dropAll a)) }, s!"dropped {n}")
+    | _, _ => (ds, "bad-op")
+  | ["mprobe", a] =>
+    match a.toNat?, ds.map with
+    | some a, some m =>
+      match Map.probe m a with
+      | none => (ds, "probe none")
+      | some (ci, l) =>
+        let items := l.map (fun p => s!"h{p.1}:{if p.2 then "queued" else "handed"}")
+        (ds, s!"probe ctrl=h{ci} {if items.isEmpty then "-" else ",".intercalate items}")
+    | _, _ => (ds, "bad-op")
+  | _ => (ds, "bad-op")
 
-def run : IO Unit := Um.Drv.loop (none : Option State) step
+def run : IO Unit := Um.Drv.loop ({} : DS) step
 end Um.Drv.Barrier
